@@ -44,6 +44,8 @@ RULE = (
     "tags, outcome)). floods: 10^3..10^5-frame repetition histories, non-trivial = flood ran to its planned length or R "
     "closed with the documented error; distinct = (generator, role, variant, outcome)."
 )
+RULE += " Late additions: flood 'vary_validated' (a peer that answers every PATH_CHALLENGE from thousands of addresses; remembered paths bounded by MAX_NETWORK_PATHS); limit histories in which the victim's own application calls stop_stream() on streams the peer keeps sending on."
+
 ASSUMPTIONS = [
     "R's advertised limits are read from the wire (transport parameters inside the handshake CRYPTO frames, MAX_* frames); "
     "small stream-count limits are obtained by presetting R's _local_max_streams_* before the handshake (workload set-up of "
